@@ -1,13 +1,13 @@
 package main
 
 import (
-	"os"
 	"fmt"
 	"go/ast"
 	"go/importer"
 	"go/parser"
 	"go/token"
 	"go/types"
+	"os"
 	"regexp"
 	"sort"
 	"strconv"
@@ -57,6 +57,9 @@ type typeDecls struct {
 	asImpl    map[*VOpaque][]string // marker methods a type implements (source of an AssignableTo)
 	unpinned  []map[string]bool     // per basic type whose kind was not pinned: the spellings it may have
 	nilArgs   []*VOpaque            // argument types that may be the type of an untyped nil
+	mapKeys   map[*VOpaque]bool     // key types of map types of the input (comparable by construction)
+	openKinds int                   // types about which the path established nothing at all
+	openDirs  int                   // channel types of the input whose direction the path never asked for
 }
 
 func (td *typeDecls) freshName() string {
@@ -106,6 +109,19 @@ func (td *typeDecls) index() {
 			}
 		}
 	}
+	td.mapKeys = map[*VOpaque]bool{}
+	defer func() {
+		for x := range seen {
+			if u := underlyingVal(x); u != nil && u.Kind == "*types.Map" {
+				if k, ok := u.attrs["Key"].(*VOpaque); ok {
+					td.mapKeys[k] = true
+					if ku, ok := k.attrs["Underlying"].(*VOpaque); ok {
+						td.mapKeys[ku] = true
+					}
+				}
+			}
+		}
+	}()
 	for _, h := range td.rs.Run.Holes {
 		walk(h.Val, 0)
 		for _, a := range h.Args {
@@ -510,6 +526,9 @@ func (td *typeDecls) declare(name string, o *VOpaque, depth int) {
 		}
 		if td.freshAttr[u][attr] == nil {
 			td.freshAttr[u][attr] = &VOpaque{Origin: u.Origin + "." + attr + "()"}
+			if attr == "Key" && u.Kind == "*types.Map" {
+				td.mapKeys[td.freshAttr[u][attr]] = true
+			}
 		}
 		return td.nameFor(td.freshAttr[u][attr], depth+1)
 	}
@@ -617,6 +636,29 @@ func (td *typeDecls) declare(name string, o *VOpaque, depth int) {
 			}
 			if d, ok := run.decision("B:" + cand.Origin + ".Dir()==1"); ok && d.Choice == 0 {
 				dir = "chan<- "
+			}
+		}
+		if dir == "chan " && !o.built && (u == nil || !u.built) {
+			// the direction of this channel type of the input was never asked for: it may be send-only or receive-only
+			asked := false
+			for _, cand := range []*VOpaque{u, o} {
+				if cand == nil {
+					continue
+				}
+				for _, d := range run.Decisions {
+					if strings.Contains(d.Sym, cand.Origin+".Dir()") {
+						asked = true
+					}
+				}
+			}
+			if !asked {
+				td.openDirs++
+				switch r4AltChan {
+				case "send":
+					dir = "chan<- "
+				case "recv":
+					dir = "<-chan "
+				}
 			}
 		}
 		emit(dir + sub("Elem"))
@@ -744,7 +786,15 @@ func (td *typeDecls) declare(name string, o *VOpaque, depth int) {
 			// its text was part of a format and nothing is known about it: it may be a struct type literal whose tag holds a percent sign
 			td.decls = append(td.decls, fmt.Sprintf("type %s = struct{ P%s int %s }", name, strings.TrimLeft(name, "_"), strconv.Quote(structTag)))
 			methodsOK = false
+		case r4AltOpaque == "slice" && td.unconstrained(o) && len(td.asImpl[o]) == 0:
+			// nothing at all is known about this type: it may as well be a slice type (not comparable, no map key, nil-able)
+			td.openKinds++
+			emit(fmt.Sprintf("[]struct{ _%s int }", strings.TrimLeft(name, "_")))
+			methodsOK = false
 		default:
+			if td.unconstrained(o) && len(td.asImpl[o]) == 0 {
+				td.openKinds++
+			}
 			emit(fmt.Sprintf("struct{ _%s int }", strings.TrimLeft(name, "_")))
 			for _, m := range td.asImpl[o] {
 				td.decls = append(td.decls, fmt.Sprintf("func (%s) %s() {}", name, m))
@@ -951,11 +1001,17 @@ func typecheckResidOpt(rs *Resid, funcSig func(h *Hole, td *typeDecls) string, s
 		}
 	}}
 	conf.Check("p", fset, []*ast.File{f}, nil)
+	residLines := strings.Count(rs.Run.Text, "\n")
 	for _, e := range errs {
 		if strings.Contains(e, "invalid map key type") {
-			// the oracle chose a key type Go does not allow as a map key: no such input exists
-			lastSkip = "infeasible: invalid map key type"
-			return nil, false, ""
+			// in the declarations of the input types: the oracle chose a key type Go does not allow as a map key, no such input
+			// exists. In the emitted code itself: the generator built a map type with a key it never established to be comparable.
+			line := 0
+			fmt.Sscanf(e, "%d:", &line)
+			if line > residLines || r4AltOpaque == "" {
+				lastSkip = "infeasible: invalid map key type"
+				return nil, false, ""
+			}
 		}
 	}
 	return errs, true, src
@@ -1210,6 +1266,36 @@ func rR4(c *Ctx, plugins ...string) {
 				}
 				if len(altFails) > 0 {
 					errs, src, alt = altFails[0].errs, altFails[0].src, altFails[0].sp
+				}
+				if len(altFails) == 0 && td0.openKinds > 0 {
+					r4AltOpaque = "slice"
+					src2, ok2 := typedSource(rs, docSig)
+					if ok2 && src2 != src && !srcSeen[src2] {
+						srcSeen[src2] = true
+						errs2, done2 := typecheckResid(rs, docSig)
+						if done2 && len(errs2) > 0 {
+							altFails = append(altFails, altFail{"a slice type (nothing about it was examined)", src2, errs2})
+							errs, src, alt = errs2, src2, altFails[0].sp
+						}
+					}
+					r4AltOpaque = ""
+				}
+				if len(altFails) == 0 && td0.openDirs > 0 {
+					for _, dirAlt := range []string{"send", "recv"} {
+						r4AltChan = dirAlt
+						src2, ok2 := typedSource(rs, docSig)
+						if ok2 && src2 != src && !srcSeen[src2] {
+							srcSeen[src2] = true
+							errs2, done2 := typecheckResid(rs, docSig)
+							if done2 && len(errs2) > 0 {
+								altFails = append(altFails, altFail{"a " + map[string]string{"send": "send-only", "recv": "receive-only"}[dirAlt] + " channel (its direction was never examined)", src2, errs2})
+							}
+						}
+						r4AltChan = ""
+					}
+					if len(altFails) > 0 {
+						errs, src, alt = altFails[0].errs, altFails[0].src, altFails[0].sp
+					}
 				}
 				// an argument that may be the untyped nil: its type has no spelling, so it must not be printed
 				if alt == "" {
@@ -1553,3 +1639,76 @@ func predOnBasicKind(c *Ctx, plugin, pred string, k types.BasicKind) (val, known
 	}
 	return false, false
 }
+
+// r4AltOpaque: the alternative declaration tried for types about which a path established nothing ("" = a comparable struct).
+var r4AltOpaque string
+
+// unconstrained: no kind, no predicate answer, no method, no identity with another type, and not the key of a map type of
+// the input — any Go type is a possible input for it.
+func (td *typeDecls) unconstrained(o *VOpaque) bool {
+	if o == nil || o.built || td.mapKeys[o] || td.find(o) != o || len(o.notKinds) > 0 {
+		return false
+	}
+	if o.Kind != "" || o.attrs["Underlying"] != nil {
+		return false
+	}
+	for p, par := range td.parent {
+		if par == o && p != o {
+			return false
+		}
+	}
+	run := td.rs.Run
+	for _, d := range run.Decisions {
+		// a structural predicate answered for an enclosing type speaks about its components as well
+		if strings.HasPrefix(d.Sym, "B:pred:") {
+			if i := strings.Index(d.Sym, "("); i > 0 {
+				arg := strings.TrimSuffix(strings.TrimSuffix(d.Sym[i+1:], ")"), ",")
+				if arg != "" && (strings.HasPrefix(o.Origin, arg) || strings.HasPrefix(tieRe.ReplaceAllString(o.Origin, "[*]"), arg)) {
+					return false
+				}
+				// the argument may be a type the generator built from components of the input (a struct of the parameters)
+				if b := td.byOrigin[arg]; b != nil && td.reaches(b, o, 0) {
+					return false
+				}
+				if strings.Contains(arg, "("+o.Origin+",") || strings.Contains(arg, ","+o.Origin+",") || strings.Contains(arg, ","+o.Origin+")") {
+					return false // the symbolic construction of the argument mentions this type
+				}
+			}
+		}
+		if strings.Contains(d.Sym, "("+o.Origin+",)") || strings.Contains(d.Sym, "("+o.Origin+")") || strings.HasPrefix(d.Sym, "A:"+o.Origin+":") || strings.HasPrefix(d.Sym, "K:"+o.Origin+":") || strings.HasPrefix(d.Sym, "N:"+o.Origin) {
+			return false
+		}
+		if strings.Contains(d.Sym, "("+o.Origin+",") || strings.Contains(d.Sym, ","+o.Origin+")") {
+			return false // took part in an Identical / AssignableTo question
+		}
+	}
+	return true
+}
+
+// reaches: o is a component (field, element, key, underlying type) of the type value v.
+func (td *typeDecls) reaches(v Value, o *VOpaque, depth int) bool {
+	if depth > 8 {
+		return false
+	}
+	switch x := v.(type) {
+	case *VOpaque:
+		if x == o {
+			return true
+		}
+		for _, a := range x.attrs {
+			if td.reaches(a, o, depth+1) {
+				return true
+			}
+		}
+	case *VList:
+		for _, e := range x.Elems {
+			if td.reaches(e, o, depth+1) {
+				return true
+			}
+		}
+	}
+	return false
+}
+
+// r4AltChan: the direction tried for channel types whose direction a path never examined ("" = bidirectional).
+var r4AltChan string
